@@ -1,5 +1,9 @@
 #include "seams.h"
 
+#include <sys/syscall.h>
+#include <sys/time.h>
+#include <time.h>
+
 #include <errno.h>
 #include <execinfo.h>
 #include <malloc.h>
@@ -368,7 +372,9 @@ const FsNode* fs_resolve(const std::string& path, int* err) {
   return &it->second;
 }
 
+ClockState clk;
 void env_reset() {
+  clk.active = false; clk.now = 1790000000; clk.reads = 0;
   env.active = false;
   env.vars.clear();
   env.reads.clear();
@@ -465,6 +471,38 @@ FILE* __wrap_fopen(const char* path, const char* mode) {
   if (!f) { delete ck; return nullptr; }
   fs.handles_open++;
   return f;
+}
+
+// The clock: strong definitions in the executable take precedence over libc's for every caller in the process,
+// including std::chrono::system_clock::now() inside libstdc++.so (and over the sanitizers' weak interceptors).
+static int real_clock_gettime(clockid_t id, struct timespec* ts) { return static_cast<int>(syscall(SYS_clock_gettime, id, ts)); }
+int clock_gettime(clockid_t id, struct timespec* ts) noexcept {
+  using namespace sim;
+  if (clk.active && ts != nullptr &&
+      (id == CLOCK_REALTIME || id == CLOCK_REALTIME_COARSE || id == CLOCK_MONOTONIC || id == CLOCK_MONOTONIC_COARSE || id == CLOCK_MONOTONIC_RAW || id == CLOCK_BOOTTIME || id == CLOCK_TAI)) {
+    clk.reads++;
+    ts->tv_sec = static_cast<time_t>(clk.now);
+    ts->tv_nsec = 123456789;
+    return 0;
+  }
+  return real_clock_gettime(id, ts);
+}
+int gettimeofday(struct timeval* tv, void* tz) noexcept {
+  using namespace sim;
+  (void)tz;
+  if (clk.active && tv != nullptr) { clk.reads++; tv->tv_sec = static_cast<time_t>(clk.now); tv->tv_usec = 123456; return 0; }
+  struct timespec ts;
+  int r = real_clock_gettime(CLOCK_REALTIME, &ts);
+  if (tv) { tv->tv_sec = ts.tv_sec; tv->tv_usec = ts.tv_nsec / 1000; }
+  return r;
+}
+time_t time(time_t* out) noexcept {
+  using namespace sim;
+  time_t v;
+  if (clk.active) { clk.reads++; v = static_cast<time_t>(clk.now); }
+  else { struct timespec ts; real_clock_gettime(CLOCK_REALTIME, &ts); v = ts.tv_sec; }
+  if (out) *out = v;
+  return v;
 }
 
 char* __wrap_getenv(const char* name) {
